@@ -24,7 +24,7 @@ MANIFEST = {
     "technique": "Lean 4 proof (induction on fuel / loops) + differential correspondence of the compiled matcher tree vs real Compiler.Match",
 }
 
-RULE = ("conflict family (125 grammars (a \"q\") | ((b | c) \"r\") over IDENT/INT/STRING/keywords x 8 inputs: commit depends on the whole first set); fixed corpus (README examples, calculator, adjacency, commit cases, tpl/parser/_testdata grammars) + random grammars "
+RULE = ("8% of the random grammars are re-run with failing return procedures (termination oracle only, not in the model); conflict family (125 grammars (a \"q\") | ((b | c) \"r\") over IDENT/INT/STRING/keywords x 8 inputs: commit depends on the whole first set); fixed corpus (README examples, calculator, adjacency, commit cases, tpl/parser/_testdata grammars) + random grammars "
         "(1-3 rules, depth<=3 over token classes, operators, keywords, QSTRING/RAWSTRING, SPACE, \"\", sequence, choice, * + ? % ++, references, "
         "20% rules with a return procedure) x 3 inputs each: random derivations of the grammar with 45% near-miss edits "
         "(drop/duplicate/replace/insert token, glue) and token soup; lexemes include non-ASCII identifiers, strings, chars (données, 日本語, \"é\", 'é') "
